@@ -884,6 +884,9 @@ class WSGIApp:
         aas = self._get_shell(url_args)
         sm_ref = self._get_submodel_reference(aas, url_args["submodel_id"])
         submodel = self._resolve_reference(sm_ref)
+        if not isinstance(submodel, model.Submodel):
+            # a reference with further keys (taken as it is from an XML body) leads to something inside the submodel
+            raise NotFound(f"{sm_ref!r} does not lead to a submodel, but to {submodel!r}!")
         self.object_store.remove(submodel)
         aas.submodel.remove(sm_ref)
         aas.commit()
